@@ -13,6 +13,7 @@ _UNIT_MODULES = [
     "units.u_collect.unit",
     "units.u_listing.unit",
     "units.u_evalvar.unit",
+    "units.u_incl.unit",
     "units.u_rulemap.unit",
     "units.u_literal.unit",
     "units.u_format.unit",
@@ -33,7 +34,7 @@ REPORT_TB = ["diagn::Report contracts (units/contracts_report.py: error*/warning
 RESOLVER_TB = ["ASSUMED contracts of unverified customasm code used by U-resolver/U-iterate: asm::resolver::eval / eval_certain ('Err is loud, Ok is clean'), resolve_constant / resolve_instruction (the per-item pass contract), ResolveIterator::new/next (flags copied; the yielded node refers to defined items), Value::expect_error_or_bigint / expect_bool, DefList::get_mut (frame), derived PartialEq of expr::Value",
                "ghost event `ItemDefs::confirmed()` is produced only by resolve_once's stub clause [confirms] (a name for 'a no-guess pass answered Resolved'); termination of resolve_once's loop is not proved"]
 
-ALL_UNITS = ["U-overlap", "U-bigint", "U-constrain", "U-resolver", "U-iterate", "U-bitvec", "U-output", "U-charcount", "U-symbols", "U-rulemap", "U-literal", "U-format", "U-inspect", "U-report", "U-limits", "U-cursor", "U-collect", "U-listing", "U-evalvar"]
+ALL_UNITS = ["U-overlap", "U-bigint", "U-constrain", "U-resolver", "U-iterate", "U-bitvec", "U-output", "U-charcount", "U-symbols", "U-rulemap", "U-literal", "U-format", "U-inspect", "U-report", "U-limits", "U-cursor", "U-collect", "U-listing", "U-evalvar", "U-incl"]
 
 PROPERTIES = {
     "C01": {
@@ -90,6 +91,12 @@ PROPERTIES = {
         "not_reached": "monotonicity in the budget (a relation between two runs, not a contract on one call); --iters 0 rejection (driver string code); eval_asm::resolve_once (the inner pass itself)",
         "trusted_base": REPORT_TB + RESOLVER_TB,
     },
+    "C14": {
+        "units": ["U-incl"],
+        "claim": "The inclusion functions (asm::resolver::eval_fn): incbin(file[, start[, size]]) returns an integer of exactly 8 x (end - start) bits holding the bytes [start, end) of the file the normalised path names (end = start + size, or the file's length; the value is the unsigned big-endian value, stated under the guard of known finding D11), and an explicit range that starts at or after the end or reaches past it is rejected with a diagnostic (fixed D29 overflow, D32 empty file); incbinstr / inchexstr return an integer of exactly (end - start) x 1 / 4 bits, counted in digit characters of the file (blanks, tabs, CR, LF and `_` skipped), reject ranges past the last digit with a diagnostic and never panic (fixed D6). Every failure (argument count, non-string file name, path rejected by filename_navigate, unreadable file, bad digit, bad range) carries a diagnostic.",
+        "not_reached": "path normalisation and confinement (util::filename_navigate: replace/split/filter/collect over &str - assumed to fail loudly, result left as the uninterpreted nav_text), #include splicing, #once and cycle detection (recursion over the parser and a file-server trait object), '<std>/' files, which digits the string forms contain (only their number is specified: the bit-exact contents of incbinstr/inchexstr are not proved)",
+        "trusted_base": REPORT_TB + NUMBIGINT_TB + ["ASSUMED FileServer contract (trait methods get_filename/get_handle/get_bytes/get_str: fail loudly, return the file's bytes/text; no file has 2^60 bytes); filename_navigate fails loudly; char::to_digit is a function of (char, radix); R28 verif_chars = the string's characters in order; usize::saturating_add/saturating_mul as specified by vstd"],
+    },
     "C16": {
         "units": ["U-resolver", "U-evalvar"],
         "claim": "One pass of conditional assembly (asm::resolver::resolve_ifs), for every AST, declaration table and definition table: every `#if` node whose condition evaluates from constants alone to a boolean is replaced, in place, by exactly the nodes of the selected arm - the true arm if the condition is true, otherwise the else/elif arm if there is one, otherwise nothing; every other node (undecided `#if`s included) is kept, in order; the returned count is the number of replaced nodes; a failing evaluation is an error with a diagnostic. After the last pass (check_leftover_ifs): success means no `#if` node is left; a condition that cannot be decided from constants alone is an error with a diagnostic. Command-line defines (check_unused_defines): the result is an error, with a diagnostic, exactly when some define names no declaration (global dotted path lookup).",
@@ -125,7 +132,6 @@ PROPERTIES = {
 NOT_APPLICABLE = {
     "C07": "matching is &str scanning (syntax::token, syntax::Walker, matcher::match_with_rule) plus a metamorphic relation between two runs; Verus has no str byte reasoning and rejects the iterator chains, Kani did not terminate on 4-character symbolic strings; no contract within reach states it",
     "C10": "determinism quantifies over processes, hash seeds and histories; a function contract describes one call; the hash-order-sensitive sites (driver::parse_output_format, format_recursive) are String/sort_by_key/closure code outside Verus' subset",
-    "C14": "filename_navigate is replace/split/filter/collect over &str (rejected by Verus, Kani did not terminate for 4-character paths); include cycle/once handling is recursion over a file-server trait object",
     "C17": "a relation between two whole assemblies (asm block vs. its inlined expansion); the mechanism is &str substitution plus the evaluator/matcher, outside both verifiers' reach",
     "C18": "getopts/String/HashMap<String,String>/PathBuf code and a usage text; driver.rs is string processing outside Verus' subset and Kani's reach",
 }
